@@ -103,7 +103,7 @@ def run_case(ctx, st, pt, p: Pep, fn, size):
         except Exception as ex:
             ctx.violation('result-does-not-parse', dict(info, index=j, result=s, exception=type(ex).__name__))
             return
-        d = rp.diff_fields(rp.expected_fields(expected_pep(p, idx)), got)
+        d = rp.diff_fields(rp.expected_fields(expected_pep(p, idx)), got, strict=True)
         if d:
             ctx.violation('result-differs-from-itertools-enumeration', dict(info, index=j, result=s, chosen=list(idx),
                                                                             diff=d))
@@ -115,6 +115,7 @@ def run_case(ctx, st, pt, p: Pep, fn, size):
 def run(ctx):
     st = State()
     pt = install(ctx, st)
+    ctx.enable_disturb(pt, 0.03)     # other legitimate library calls interleaved between cases (vf.gen.disturb)
     cfg = gp.GenCfg(min_len=1, max_len=6, letters=LETTERS, weights=dict(gp.W_ALL), p_res=0.4, p_interval=0.0,
                     p_charge=0.25, p_isotope=0.15, p_static=0.2, p_labile=0.2, p_unknown=0.15, p_mult=0.1)
     rng = ctx.rng
@@ -127,6 +128,20 @@ def run(ctx):
             import copy as _copy
             k_ = rng.choice(sorted(p.res))
             p.res[k_] = p.res[k_] + [_copy.deepcopy(rng.choice(p.res[k_]))]
+        # sibling peptide, expanded right after p in the same process: one integer-valued shift written the other way
+        # (16 <-> 16.0); each expansion carries the spelling of its own peptide
+        sib = None
+        cand = [(k_, j) for k_, lst in p.res.items() for j, m in enumerate(lst)
+                if isinstance(m.val(), int) or (isinstance(m.val(), float) and m.text.endswith('.0'))]
+        if cand and rng.random() < 0.5:
+            k_, j = rng.choice(cand)
+            m = p.res[k_][j]
+            t2 = m.text[:-2] if m.text.endswith('.0') else m.text + '.0'
+            sib = p.copy()
+            sib.res[k_][j] = rp.M(t2, m.mult, mono=m.mono, avg=m.avg, comp=m.comp, kind=m.kind, named=m.named,
+                                  resolvable=m.resolvable)
+            if repr(sib.res[k_][j].val()) == repr(m.val()):
+                sib = None
         for fn in FNS:
             sizes = [None, n + 1] + [rng.randint(1, n)]
             if rng.random() < 0.3:
@@ -136,6 +151,8 @@ def run(ctx):
                 if FNS[fn][1](n, k) > cap:
                     continue
                 run_case(ctx, st, pt, p, fn, size)
+                if sib is not None and rng.random() < 0.5:
+                    run_case(ctx, st, pt, sib, fn, size)
 
 
 def replay(ctx, case):
